@@ -251,6 +251,8 @@ func (c *Ctx) c18Entries(n, bs int) []kvE {
 	return es
 }
 
+var c18EdgeCtr = -1
+
 // a few entries with very long keys: within the 65000-byte user key limit, and around the
 // uint16 limits of the block header (builder assertion / iterator uint16 arithmetic)
 func (c *Ctx) c18BigEntries(edge bool) []kvE {
@@ -270,12 +272,15 @@ func (c *Ctx) c18BigEntries(edge bool) []kvE {
 		}
 	} else {
 		// internal key lengths around 65531..65536 (first in block) and long keys with a long overlap
-		tot := []int{65531, 65532, 65535, 65536, 65530}[c.Rng.Intn(5)]
+		c18EdgeCtr++
+		tot := []int{65532, 65531, 65535, 65536, 65530}[c18EdgeCtr%5]
 		fill := byte('a')
 		es = append(es, kvE{K: c18Key(mk(tot-8, fill, []byte{1}), 5), V: c.c18Value(64)})
-		if c.Rng.Intn(2) == 0 {
-			// same long prefix, longer key: overlap large, diff small
-			es = append(es, kvE{K: c18Key(mk(tot-8+c.Rng.Intn(70000), fill, []byte{2}), 5), V: c.c18Value(64)})
+		switch (c18EdgeCtr / 5) % 3 {
+		case 1: // same long prefix, longer key: overlap large, diff small (accepted, readable)
+			es = append(es, kvE{K: c18Key(mk(tot-8+1+c.Rng.Intn(200), fill, []byte{2}), 5), V: c.c18Value(64)})
+		case 2: // diff beyond uint16: builder assertion
+			es = append(es, kvE{K: c18Key(mk(tot-8+65530+c.Rng.Intn(10), fill, []byte{2}), 5), V: c.c18Value(64)})
 		}
 		if c.Rng.Intn(2) == 0 {
 			es = append(es, kvE{K: c18Key([]byte("0small"), 3), V: c.c18Value(64)})
@@ -668,7 +673,12 @@ func (c *Ctx) c18RunTScript(e *c18Env, t *table.Table, rev bool, ops []c18TOp, e
 	defer it.Close()
 	ref := &c18Ref{es: es}
 	var obs []string
-	for i, op := range ops {
+	for i := range ops {
+		if _, bpos, _ := it.VerifState(); ops[i].kind == "nextI" && bpos < 0 && c.Rng.Intn(4) != 0 {
+			// mostly avoid the process exit below so that scripts go on
+			ops[i] = c18TOp{kind: []string{"prevI", "firstI", "lastI"}[c.Rng.Intn(3)]}
+		}
+		op := ops[i]
 		if op.kind == "nextI" {
 			// Iterator.next with bpos < 0 reaches Table.block's y.AssertTruef(idx >= 0): process exit
 			if _, bpos, _ := it.VerifState(); bpos < 0 {
@@ -1118,10 +1128,15 @@ func (c *Ctx) c18ConcatCase(e *c18Env) {
 		ci := table.NewConcatIterator(tbls, opt)
 		ref := &c18Ref{es: all}
 		var obs, ot []string
-		for _, op := range ops {
-			ot = append(ot, op.term())
-		}
-		for i, op := range ops {
+		for i := range ops {
+			if ops[i].kind == "Next" && !ci.Valid() && c.Rng.Intn(5) != 0 {
+				if c.Rng.Intn(3) == 0 {
+					ops[i] = c18COp{kind: "Rewind"}
+				} else {
+					ops[i] = c18COp{kind: "Seek", key: c.c18SeekKey(all, bases, false)}
+				}
+			}
+			op := ops[i]
 			p := recoverPanic(func() {
 				switch op.kind {
 				case "Rewind":
@@ -1160,6 +1175,9 @@ func (c *Ctx) c18ConcatCase(e *c18Env) {
 			}
 		}
 		_ = ci.Close()
+		for _, op := range ops {
+			ot = append(ot, op.term())
+		}
 		scripts = append(scripts, fmt.Sprintf("(%s, %s, %s)", Bool(rev), ListOf(ot), ListOf(obs)))
 	}
 	term := fmt.Sprintf("(CConcat %s %s)", ListOf(specs), ListOf(scripts))
